@@ -6,6 +6,8 @@ import (
 	"strings"
 	"time"
 
+	sql2 "seata.apache.org/seata-go/pkg/datasource/sql"
+
 	"verifharness/memdb"
 )
 
@@ -23,6 +25,7 @@ var c17CancelKinds = []string{
 	"auto-panic",                // an auto-commit statement under which something panics
 	"auto-cancel-before",        // an auto-commit statement under a context that is cancelled already
 	"explicit-slow",             // nothing fails: a local transaction that takes longer than the two-phase hold time
+	"explicit-expired",          // a local transaction that takes longer than the execution timeout of a branch: refused at its commit
 }
 
 func runC17Cancelled(c *Ctx) {
@@ -45,6 +48,7 @@ func runC17Cancelled(c *Ctx) {
 			w.Eng.ResetJournal()
 			q := "UPDATE " + table + " SET n = 7 WHERE id = ?"
 			var firstErr, nextErr error
+			untold := false
 			var xid string
 			crash := safeCall(func() {
 				xid, _ = InGlobalTx(cid, func(ctx context.Context) error {
@@ -120,6 +124,25 @@ func runC17Cancelled(c *Ctx) {
 								tx.Rollback()
 							}
 							return
+						case "explicit-expired":
+							defer sql2.VerifSetXABranchExecutionTimeout(sql2.VerifSetXABranchExecutionTimeout(200 * time.Millisecond))
+							tx, err := begin(ctx, nil)
+							if err != nil {
+								firstErr = err
+								return
+							}
+							if _, firstErr = tx.ExecContext(ctx, q, 1); firstErr == nil {
+								time.Sleep(300 * time.Millisecond)
+								firstErr = tx.Commit()
+							}
+							if firstErr != nil {
+								tx.Rollback()
+								if !strings.Contains(firstErr.Error(), "timeout") {
+									firstErr = fmt.Errorf("(the caller is not told that the branch timed out) %w", firstErr)
+									untold = true
+								}
+							}
+							return
 						case "auto-cancel-before":
 							cctx, cancel := context.WithCancel(ctx)
 							cancel()
@@ -145,10 +168,14 @@ func runC17Cancelled(c *Ctx) {
 				}
 			}
 			var toks []string
+			finished := map[string]int{}
 			for _, e := range w.Eng.Journal() {
 				tok := map[string]string{"xa_start": "S", "xa_end": "E", "xa_prepare": "P", "xa_commit": "C", "xa_rollback": "R", "update": "x"}[e.Kind]
 				if tok == "" {
 					continue
+				}
+				if tok == "C" || tok == "R" {
+					finished[xaIDOf(e.SQL)]++
 				}
 				if e.Err != "" {
 					tok += "!"
@@ -183,6 +210,14 @@ func runC17Cancelled(c *Ctx) {
 				if t == "C!" {
 					fail("commit_sent_after_failure", "a branch that was rolled back in phase one was not reported and is taken through phase two")
 				}
+			}
+			for id, k := range finished {
+				if k > 1 {
+					fail("branch_finished_twice", fmt.Sprintf("%d XA COMMIT / XA ROLLBACK commands for %s", k, id))
+				}
+			}
+			if untold {
+				fail("cause_of_failure_not_returned", firstErr.Error())
 			}
 			if nextErr != nil {
 				fail("next_statement_refused", nextErr.Error())
